@@ -50,12 +50,43 @@ def guard(res: core.CaseResult, what: str, fn: Callable, *a: Any, **k: Any) -> T
         return False, None
 
 
-def new_trace(dirpath: str, files: Optional[Dict[int, str]] = None):
+PARSER_VARIANTS = ["default", "default", "minimum", "complete", "all_args", "selected", "comm", "bandwidth_first"]
+
+
+def parser_config(variant: str):
+    """A user-chosen ParserConfig (None = library default).  Every variant keeps `stream` and `correlation`, the two args
+    columns the properties speak about; the rest of the selection must not change any documented column."""
+    from hta.configs.parser_config import ParserConfig
+
+    if variant in (None, "default"):
+        return None
+    if variant == "minimum":
+        return ParserConfig(args=ParserConfig.get_minimum_args())
+    if variant == "complete":
+        return ParserConfig(args=list(ParserConfig.ARGS_COMPLETE))
+    if variant == "all_args":
+        return ParserConfig(parse_all_args=True)
+    if variant == "selected":
+        c = ParserConfig()
+        c.set_args_selector(["correlation", "stream", "bytes"])
+        return c
+    if variant == "comm":
+        return ParserConfig.enable_communication_args(ParserConfig())
+    if variant == "bandwidth_first":
+        return ParserConfig(args=list(ParserConfig.ARGS_BANDWIDTH) + list(ParserConfig.ARGS_SYNC) + ParserConfig.get_minimum_args())
+    raise ValueError(variant)
+
+
+def new_trace(dirpath: str, files: Optional[Dict[int, str]] = None, parser: Optional[str] = None):
     from hta.common.trace import Trace
 
+    kw = {}
+    pc = parser_config(parser)
+    if pc is not None:
+        kw["parser_config"] = pc
     if files is not None:
-        return Trace(trace_files=dict(files), trace_dir=dirpath)
-    return Trace(trace_dir=dirpath)
+        return Trace(trace_files=dict(files), trace_dir=dirpath, **kw)
+    return Trace(trace_dir=dirpath, **kw)
 
 
 def new_analysis(dirpath: str, files: Optional[Dict[int, str]] = None, **kw: Any):
